@@ -181,12 +181,13 @@ func (n *Nodis) ExpireGT(key string, seconds int64) int64 {
 			return nil
 		}
 		now := time.Now().UnixMilli()
-		if meta.key.Expiration == 0 {
-			meta.key.Expiration = now
+		expiration := meta.key.Expiration
+		if expiration == 0 {
+			expiration = now
 		}
 		ms := seconds * 1000
-		if meta.key.Expiration < now+ms {
-			meta.key.Expiration += ms
+		if expiration < now+ms {
+			meta.key.Expiration = expiration + ms
 			n.signalModifiedKey(key, meta)
 			n.notify(func() []patch.Op {
 				return []patch.Op{{Type: patch.OpTypeExpire, Data: &patch.OpExpire{Key: key, Expiration: meta.key.Expiration}}}
@@ -299,9 +300,6 @@ func (n *Nodis) ExpireAtGT(key string, timestamp time.Time) int64 {
 			return nil
 		}
 		unix := timestamp.UnixMilli()
-		if meta.key.Expiration == 0 {
-			meta.key.Expiration = unix
-		}
 		if meta.key.Expiration < unix {
 			meta.key.Expiration = unix
 			n.signalModifiedKey(key, meta)
